@@ -201,6 +201,74 @@ func dumpEntities(table string, m map[string][]byte, rev map[byte][]byte) {
 	}
 }
 
+// dumpExtraRevMaps audits every further package-level `var X = map[byte][]byte{...}` of <repo>/<pkg>/table.go
+// (reverse entity maps added besides TextRevEntitiesMap, e.g. xml.AttrRevEntitiesMap).  Such a variable
+// may not exist in every version of the tree, so it cannot be referenced from Go code here: the entries
+// are read from the source of the tree under test (go/parser), char and string literals evaluated by strconv.
+func dumpExtraRevMaps(repo, pkg, table string) int {
+	fset := token.NewFileSet()
+	f, err := parser.ParseFile(fset, filepath.Join(repo, pkg, "table.go"), nil, 0)
+	if err != nil {
+		lib.Fatal("parse %s/table.go: %v", pkg, err)
+	}
+	n := 0
+	for _, d := range f.Decls {
+		gd, ok := d.(*ast.GenDecl)
+		if !ok || gd.Tok != token.VAR {
+			continue
+		}
+		for _, sp := range gd.Specs {
+			vs := sp.(*ast.ValueSpec)
+			if len(vs.Names) != 1 || len(vs.Values) != 1 || vs.Names[0].Name == "TextRevEntitiesMap" {
+				continue
+			}
+			cl, ok := vs.Values[0].(*ast.CompositeLit)
+			if !ok {
+				continue
+			}
+			mt, ok := cl.Type.(*ast.MapType)
+			if !ok {
+				continue
+			}
+			if k, ok := mt.Key.(*ast.Ident); !ok || k.Name != "byte" {
+				continue
+			}
+			if at, ok := mt.Value.(*ast.ArrayType); !ok || at.Len != nil {
+				continue
+			} else if e, ok := at.Elt.(*ast.Ident); !ok || e.Name != "byte" {
+				continue
+			}
+			for _, el := range cl.Elts {
+				kv, ok := el.(*ast.KeyValueExpr)
+				if !ok {
+					lib.Fatal("%s.%s: unexpected element", pkg, vs.Names[0].Name)
+				}
+				kl, ok1 := kv.Key.(*ast.BasicLit)
+				call, ok2 := kv.Value.(*ast.CallExpr)
+				if !ok1 || !ok2 || kl.Kind != token.CHAR || len(call.Args) != 1 {
+					lib.Fatal("%s.%s: entry is not of the form 'c': []byte(\"...\")", pkg, vs.Names[0].Name)
+				}
+				vl, ok := call.Args[0].(*ast.BasicLit)
+				if !ok || vl.Kind != token.STRING {
+					lib.Fatal("%s.%s: value is not a string literal", pkg, vs.Names[0].Name)
+				}
+				ch, _, _, err := strconv.UnquoteChar(kl.Value[1:len(kl.Value)-1], '\'')
+				if err != nil || ch > 255 {
+					lib.Fatal("%s.%s: key %s: %v", pkg, vs.Names[0].Name, kl.Value, err)
+				}
+				val, err := strconv.Unquote(vl.Value)
+				if err != nil {
+					lib.Fatal("%s.%s: value %s: %v", pkg, vs.Names[0].Name, vl.Value, err)
+				}
+				emit(fmt.Sprintf("reventity|%s.%s|%d", table, vs.Names[0].Name, int(ch)), obj{"kind": "reventity", "table": table,
+					"map": vs.Names[0].Name, "ch": int(ch), "r": replRecord([]byte(val))})
+				n++
+			}
+		}
+	}
+	return n
+}
+
 func has(l []string, s string) bool {
 	for _, x := range l {
 		if x == s {
@@ -821,6 +889,8 @@ func main() {
 	// (1) direct dump of every table entry
 	dumpEntities("html", mhtml.EntitiesMap, mhtml.TextRevEntitiesMap)
 	dumpEntities("xml", mxml.EntitiesMap, mxml.TextRevEntitiesMap)
+	dumpExtraRevMaps(repo, "html", "html")
+	dumpExtraRevMaps(repo, "xml", "xml")
 	tTags, tAttrs, tUnits, tColours, tHexes, tSvg := dumpTraits()
 	dumpHashes(repo, "html", func(b []byte) uint32 { return uint32(mhtml.ToHash(b)) }, func(v uint32) string { return mhtml.Hash(v).String() })
 	dumpHashes(repo, "css", func(b []byte) uint32 { return uint32(mcss.ToHash(b)) }, func(v uint32) string { return mcss.Hash(v).String() })
